@@ -10,6 +10,14 @@ def pool_batch(acc, batch, **kw):
     poolcheck.pool_batch(acc, batch, **kw)
 
 
+def real_trace_batch(acc, batch, **kw):
+    poolcheck.real_trace_batch(acc, batch, **kw)
+
+
+def real_kill_batch(acc, batch, **kw):
+    poolcheck.real_kill_batch(acc, batch, **kw)
+
+
 def run(ctx):
     import mc.checks.c13 as me
 
